@@ -102,6 +102,7 @@ var (
 
 const vT0s = "datetime(2020-01-02T03:04:05Z)"
 const vT1s = "datetime(2021-01-02T03:04:05Z)"
+const vT0zone = "datetime(2020-01-02T05:04:05+02:00)" // the instant vT0
 
 func timeCmp(op string, l *time.Time, r time.Time) bool {
 	if l == nil {
@@ -166,6 +167,12 @@ func verifKernelProgs() []vKProg {
 	add(`f not in [1.5, 2]`, "f", func(r *vRowVals) bool { return verifrt.Not(inF(r)) })
 	add(`f in [1, 2]`, "f", func(r *vRowVals) bool { return r.f != nil && verifrt.Or(*r.f == 1, *r.f == 2) })
 	add(`t in [`+vT0s+`, `+vT1s+`]`, "t", func(r *vRowVals) bool { return r.t != nil && (r.t.Equal(vT0) || r.t.Equal(vT1)) })
+	// the same instants written with a zone offset: a datetime is an instant,
+	// not a spelling
+	add(`t in [`+vT0zone+`]`, "t", func(r *vRowVals) bool { return r.t != nil && r.t.Equal(vT0) })
+	add(`t = `+vT0zone, "t", func(r *vRowVals) bool { return timeCmp("=", r.t, vT0) })
+	add(`t >= `+vT0zone, "t", func(r *vRowVals) bool { return timeCmp(">=", r.t, vT0) })
+	add(`t between `+vT0zone+` and `+vT1s, "t", func(r *vRowVals) bool { return r.t != nil && !r.t.Before(vT0) && r.t.Before(vT1) })
 	// between: lower inclusive, upper exclusive
 	btwI := func(r *vRowVals) bool { return r.i != nil && verifrt.And(*r.i >= 1, *r.i < 3) }
 	add(`i between 1 and 3`, "i", btwI)
@@ -252,11 +259,9 @@ func VerifC01_ComparisonKernel() {
 		st.syms["b"] = &vSym{typ: NodeTypeBool, b: v}
 	}
 	if strings.Contains(p.needs, "t") {
-		// datetime values are concrete samples around the literals
-		samples := []time.Time{vT0.Add(-time.Second), vT0, vT0.Add(time.Nanosecond), vT1.Add(-time.Nanosecond), vT1, vT1.Add(time.Hour)}
-		k := verifrt.Choose("t.sample", len(samples)+1)
-		if k < len(samples) {
-			v := samples[k]
+		// null, or an arbitrary instant (year 1..9999, nanosecond resolution)
+		if verifrt.Choose("t.null", 2) == 1 {
+			v := verifrt.TimeUTC("t")
 			r.t = &v
 			st.syms["t"] = &vSym{typ: NodeTypeDatetime, t: v}
 		}
